@@ -15,14 +15,19 @@ theorem contract_exactly_once (acts : List CAct) (b : CBus) (h : CExec {} acts b
     match alookup b.cursors (k, T) with
     | some i => i ≤ (b.log T).length ∧ b.deliveredTo k T = (b.log T).take i
     | none => b.deliveredTo k T = [] := by
-  sorry
+  have hI := (h.Inv CBus.Inv_empty) k T
+  cases hc : alookup b.cursors (k, T) with
+  | some i => exact hI.1 i hc
+  | none => exact hI.2 hc
 
 /-- whatever has been produced can still be delivered to every subscriber: a late subscriber
 misses nothing (progress: while the cursor is behind, `deliver` is enabled). -/
 theorem deliver_enabled (acts : List CAct) (b : CBus) (h : CExec {} acts b) (k : Nat) (T : CTopic) (i : Nat)
     (hc : alookup b.cursors (k, T) = some i) (hlt : i < (b.log T).length) :
     ∃ b', b.step (.deliver k T) = some b' := by
-  sorry
+  have _ := h -- (holds in every state, reachable or not)
+  obtain ⟨_, hget⟩ : ∃ v, (b.log T)[i]? = some v := ⟨_, List.getElem?_eq_getElem hlt⟩
+  simp [CBus.step, hc, hget]
 
 /-- **a late start is just a delay**: for every execution, the execution in which all
 subscriptions happen first and everything else follows in the same order is also an
@@ -33,23 +38,23 @@ theorem late_subscribe_is_delay (acts : List CAct) (b : CBus) (h : CExec {} acts
     ∃ b', CExec {} (acts.filter CAct.isSubscribe ++ acts.filter (fun a => !a.isSubscribe)) b' ∧
       b'.delivered = b.delivered ∧ (∀ T, b'.log T = b.log T) ∧
       (∀ k T, alookup b'.cursors (k, T) = alookup b.cursors (k, T)) := by
-  sorry
+  exact ⟨b, h.subscribes_first, rfl, fun _ => rfl, fun _ _ => rfl⟩
 
 /-- **a component can answer as soon as it is subscribed**: with the producer created before
 the subscription, no interleaving of start-up steps and (replayed or fresh) inputs ever
 handles an input without a producer. -/
 theorem producer_before_subscribe (evs : List CompEv) (h : RespectsStartOrder evs) :
     (evs.foldl CompSt.step {}).crashed = false := by
-  sorry
+  exact CompSt.not_crashed_of_startOrder evs {} rfl rfl h
 
 /-- with the opposite order an input replayed during `subscribe` crashes the component
 (the behaviour before the repair) -/
 theorem subscribe_before_producer_crashes :
     ([CompEv.start .subscribe, .input, .start .createProducer].foldl CompSt.step {}).crashed = true := by
-  sorry
+  rfl
 
 example : CExec {} [.produce "t" 1, .subscribe 0 "t", .deliver 0 "t"]
     { logs := [("t", [1])], cursors := [((0, "t"), 1)], delivered := [(0, "t", 1)] } := by
-  sorry
+  exact .cons rfl (.cons rfl (.cons rfl (.nil _)))
 
 end Tickit
